@@ -185,7 +185,7 @@ func (g *gateSched) openAll() {
 
 func init() {
 	checks["C05"] = func(rep *Report, tier string, seed int64) {
-		rep.Rule = "chunked L1 as the store of record: (a) EXHAUSTIVE loss of entries: for n = 0..N chunks (quick N=5, thorough N=6) a value is set, every subset of {metadata, chunk 0..n-1} is removed from the backend, then a get and a get-and-touch are issued; additionally an older value of the same key with a different chunk count is set first and random subsets of the NEW entries are removed (old chunks may survive under the new metadata); (b) interleavings at backend-request granularity: two sets of different values (1..3 chunks) on one key through separate connections, optionally over a previous value, with every interleaving of their backend requests for the small sizes and seeded random schedules otherwise, with a concurrent reader in a third of the schedules; oracle: every reply is a miss or the value AND flags of one single set; the invariant of the theorem (every backend entry is the metadata or a whole chunk of one of the sets, by token) is checked on the fake backend after every schedule; (a) is also compared byte for byte with the Lean model; distinct = distinct (chunk count, subset) / (sizes, schedule)"
+		rep.Rule = "chunked L1 as the store of record: (a) EXHAUSTIVE loss of entries: for n = 0..N chunks (quick N=5, thorough N=6) a value is set, every subset of {metadata, chunk 0..n-1} is removed from the backend, then a get and a get-and-touch are issued, and — from the same torn state — an append or prepend (a read-modify-write) followed by a get and a get-and-touch; additionally an older value of the same key with a different chunk count is set first and random subsets of the NEW entries are removed (old chunks may survive under the new metadata); (b) interleavings at backend-request granularity: two sets of different values (1..3 chunks) on one key through separate connections, optionally over a previous value, with every interleaving of their backend requests for the small sizes and seeded random schedules otherwise, with a concurrent reader in a third of the schedules; oracle: every reply is a miss or the value AND flags of one single set; the invariant of the theorem (every backend entry is the metadata or a whole chunk of one of the sets, by token) is checked on the fake backend after every schedule; (a) is also compared byte for byte with the Lean model; distinct = distinct (chunk count, subset) / (sizes, schedule)"
 		d := StartDriver()
 		defer d.Close()
 		cfg := StackCfg{Orca: "l1only", Locked: "none", Bits: 0, L1: "chunked"}
@@ -258,6 +258,29 @@ func init() {
 					out = RunScenarioO(d, sc, 3*time.Second, false)
 				}
 				judge(sc, out, []wholeValue{{val, uint32(1000 + n)}}, fmt.Sprintf("sub/%d/%d", n, mask))
+				if enoughDivergences(rep, 3) {
+					rep.Distinct = len(distinct)
+					return
+				}
+				// the same losses, then a read-modify-write (append / prepend re-store the value they
+				// read): whatever a later read returns must still be one whole value
+				pend, ext := "append", []byte("+TAIL")
+				whole2 := []wholeValue{{val, uint32(1000 + n)}, {append(append([]byte{}, val...), ext...), uint32(1000 + n)}}
+				if (n+mask)%2 == 1 {
+					pend, ext = "prepend", []byte("HEAD+")
+					whole2[1] = wholeValue{append(append([]byte{}, ext...), val...), uint32(1000 + n)}
+				}
+				sc2 := Scenario{ID: fmt.Sprintf("C05-rmw-%d-%d", n, mask), Stack: cfg, Conns: conns}
+				sc2.Steps = append(sc2.Steps, sc.Steps[:len(sc.Steps)-3]...)
+				sc2.Steps = append(sc2.Steps,
+					Step{Kind: "feed", Conn: "b", Cmd: Command{Kind: pend, Key: key, Data: ext, Opaque: 5}},
+					Step{Kind: "feed", Conn: "b", Cmd: Command{Kind: "get", Keys: []GetKey{{Key: key, Opaque: 6}}}},
+					Step{Kind: "feed", Conn: "b", Cmd: Command{Kind: "gat", Key: key, Exptime: 500, Opaque: 7}})
+				out2 := RunScenarioO(d, sc2, 3*time.Second, false)
+				if out2.Tainted {
+					out2 = RunScenarioO(d, sc2, 3*time.Second, false)
+				}
+				judge(sc2, out2, whole2, fmt.Sprintf("rmw/%d/%d", n, mask))
 				if enoughDivergences(rep, 3) {
 					rep.Distinct = len(distinct)
 					return
